@@ -29,11 +29,13 @@ PROP = "C17"
 RULE = ("seeded random single-cell inputs: common bin table (1-3 chromosomes, fixed/variable bins, <=12 bins) x 1-5 distinct cell names from a grammar "
         "(letters, digits, spaces, punctuation, no '/', no '::') x arbitrary incl. empty pixel tables x {single bin table, single bin table with extra "
         "columns, per-cell bin tables with per-cell extra columns} x optional parameters in 60% of the cases (dtypes: count as float64 with fractional dyadic values / int64 beyond int32, "
-        "an extra pixel value column through columns+dtypes, h5opts, mode a/w incl. a collection already in the file, symmetric_upper=False cells, chunk-iterator input, check flags), every cell compared "
-        "value by value and dtype by dtype, plus a fixed corpus; non-trivial = at least two cells with different pixel tables; distinct by input hash")
+        "an extra pixel value column through columns+dtypes, h5opts, mode a/w incl. a collection already in the file, symmetric_upper=False cells, cell pixels as frame / column dict / iterator of chunks, "
+        "ordered x ensure_sorted incl. rows scrambled (within the frame or within each chunk) when ensure_sorted=True, check flags), every cell compared value by value and dtype by dtype, "
+        "stored row order and bin1_offset/chrom_offset against the schema, sub-range, per-chromosome and two-chromosome matrix fetches, plus a fixed corpus; non-trivial = at least two cells with different pixel tables; distinct by input hash")
 TRUSTED = ["h5py raw reads and object addresses are the observation channel for stored content and sharing"]
 ASSUMPTIONS = ["cell names are valid HDF5 link names without '/' and without the URI separator '::' (DESIGN section 8)",
-               "pixel tables are sorted by (bin1_id, bin2_id), the documented precondition of create_scool"]
+               "pixel tables are handed over sorted by (bin1_id, bin2_id) (the documented precondition of create_scool) unless ensure_sorted=True is passed; "
+               "create_scool's `ordered` parameter is ignored by the code (unsorted input with ordered=False and without ensure_sorted is stored as is): reported, outside the claimed domain"]
 RESIDUE = ["names containing '/' are mapped to their basename by the code (can collide) and names containing '::' are refused by the URI parser: outside the claimed domain",
            "extra bin columns are integer-valued in the explored inputs", "HDF5 semantics are modelled by the object store"]
 
@@ -94,6 +96,11 @@ def gen_case(rng):
                 c["extra"].setdefault(col, [rng.randint(0, 9) for _ in range(nb)])
     shared_extra = {"gc": [rng.randint(0, 100) for _ in range(nb)]} if mode == "single_extra" else None
     case = {"chromnames": names, "bins": rows, "mode": mode, "shared_extra": shared_extra, "order": cnames, "cells": cells}
+    case["windows"] = []
+    for _ in range(3):
+        a, b = sorted(rng.sample(range(nb + 1), 2)) if nb >= 1 else (0, 0)
+        c_, d_ = sorted(rng.sample(range(nb + 1), 2)) if nb >= 1 else (0, 0)
+        case["windows"].append([a, b, c_, d_])
     if rng.random() < 0.6:
         case["opts"] = gen_opts(rng, case, nb)
     return case
@@ -109,7 +116,13 @@ def gen_opts(rng, case, nb):
          "mode": rng.choice(["w", "w", "a"]), "symm": rng.random() > 0.25,
          "chunks": rng.choice([None, None, 1, 2, 3]),
          "flags": {k: rng.random() < 0.7 for k in ("boundscheck", "dupcheck", "triucheck")},
-         "pre": rng.random() < 0.3}
+         "pre": rng.random() < 0.3,
+         "ensure_sorted": rng.random() < 0.5, "ordered": rng.choice([None, True, False]),
+         "as_dict": rng.random() < 0.3}
+    # rows handed over in a scrambled order are legitimate only together with ensure_sorted=True
+    # (whole frame, or within each chunk of an iterator whose chunks are themselves in order)
+    o["shuffle"] = o["ensure_sorted"] and rng.random() < 0.8
+    o["perm_seed"] = rng.randrange(10 ** 6)
     if not o["symm"]:
         o["flags"]["triucheck"] = False
     for n, c in case["cells"].items():
@@ -161,6 +174,13 @@ def corpus():
     return out
 
 
+CORPUS_SORT = {"chromnames": ["chr1", "chr2"], "bins": [("chr1", 0, 10), ("chr1", 10, 20), ("chr1", 20, 25), ("chr2", 0, 10), ("chr2", 10, 13)],
+               "mode": "single", "shared_extra": None, "order": ["u1", "u2"],
+               "cells": {"u1": {"pixels": [(0, 1, 1), (0, 3, 2), (1, 1, 3), (2, 4, 4), (3, 3, 5)], "extra": None},
+                         "u2": {"pixels": [(0, 0, 7), (1, 2, 1), (4, 4, 2)], "extra": None}},
+               "opts": {"count_dtype": "default", "extra": None, "h5opts": None, "mode": "w", "symm": True, "chunks": None, "flags": {},
+                        "pre": False, "ensure_sorted": True, "ordered": None, "as_dict": False, "shuffle": True, "perm_seed": 11}}
+
 NP_DTYPE = {"default": np.int32, "int32": np.int32, "int64": np.int64, "float64": np.float64}
 
 
@@ -193,11 +213,22 @@ def frames(case):
                            "count": np.array([x[2] for x in r], dtype=NP_DTYPE[o["count_dtype"]] if o else np.int32)})
         if o and o["extra"]:
             df[o["extra"][0]] = np.array(case["cells"][n]["xcol"], dtype=o["extra"][1])
+        prng = __import__("random").Random((o or {}).get("perm_seed", 0) + len(n))
+
+        def scramble(part):
+            if o and o.get("shuffle") and len(part) > 1:
+                idx = list(range(len(part)))
+                prng.shuffle(idx)
+                return part.iloc[idx].reset_index(drop=True)
+            return part
         if o and o["chunks"]:
             k = o["chunks"]
-            px[n] = [df.iloc[a:a + k] for a in range(0, max(len(df), 1), k)]      # an iterable of chunks
+            px[n] = [scramble(df.iloc[a:a + k]) for a in range(0, max(len(df), 1), k)]      # an iterable of chunks
+        elif o and o.get("as_dict"):
+            sd = scramble(df)
+            px[n] = {col: sd[col].values for col in sd.columns}                              # a column dict
         else:
-            px[n] = df
+            px[n] = scramble(df)
     return bins, px
 
 
@@ -217,7 +248,16 @@ def scool_kwargs(case):
     if o["h5opts"]:
         kw["h5opts"] = dict(o["h5opts"])
     kw.update(o["flags"])
+    if o.get("ensure_sorted") is not None:
+        kw["ensure_sorted"] = bool(o.get("ensure_sorted"))
+    if o.get("ordered") is not None:
+        kw["ordered"] = o["ordered"]
     return kw
+
+
+def windows_of(case):
+    nb = len(case["bins"])
+    return case.get("windows") or [[0, nb, 0, nb // 2 + 1], [min(1, nb), nb, 0, min(2, nb)], [nb // 2, nb, nb // 2, nb]]
 
 
 def num(v):
@@ -273,6 +313,9 @@ def run_impl(d, k, case):
                     "xcol": [num(v_) for v_ in p[xc[0]]] if xc else None, "xcol_dtype": p[xc[0]].dtype.name if xc else None,
                     "bins": {col: ([str(x) for x in b[col]] if col == "chrom" else [int(x) for x in b[col]]) for col in b.columns},
                     "matrix": [[num(x) for x in row] for row in c.matrix(balance=False)[:]],
+                    "windows": [[[num(x) for x in row] for row in c.matrix(balance=False)[a:b_, c_:d_]] for a, b_, c_, d_ in windows_of(case)],
+                    "by_chrom": {ch: [[num(x) for x in row] for row in c.matrix(balance=False).fetch(ch)] for ch in case["chromnames"]},
+                    "trans": [[num(x) for x in row] for row in c.matrix(balance=False).fetch(case["chromnames"][0], case["chromnames"][-1])],
                     "chroms": [[str(a), int(L)] for a, L in c.chromsizes.items()],
                     "nnz": int(c.info["nnz"]), "sum": num(c.info["sum"])}
         o, v = G.guarded(rd)
@@ -289,7 +332,10 @@ def run_impl(d, k, case):
                 continue
             e = {"chroms": ident(g["chroms"]), "bins": ident(g["bins"]),
                  "pixel_dtypes": {col: g["pixels"][col].dtype.name for col in g["pixels"].keys()},
-                 "count_compression": g["pixels"]["count"].compression, "storage": _attrs(g).get("storage-mode")}
+                 "count_compression": g["pixels"]["count"].compression, "storage": _attrs(g).get("storage-mode"),
+                 "bin1_offset": [int(x) for x in g["indexes"]["bin1_offset"][:]] if "indexes" in g else None,
+                 "chrom_offset": [int(x) for x in g["indexes"]["chrom_offset"][:]] if "indexes" in g else None,
+                 "raw_bin1": [int(x) for x in g["pixels"]["bin1_id"][:]], "raw_bin2": [int(x) for x in g["pixels"]["bin2_id"][:]]}
             for col in g["bins"].keys():
                 e["bins/" + col] = ident(g["bins"][col])
             ids["cells"][n] = e
@@ -383,6 +429,31 @@ def oracle(case, r):
                 M[j][i] = v
         if got["matrix"] != M:
             bad.append({"what": "matrix of the cell", "cell": n})
+        for (a, b_, c_, d_), gw in zip(windows_of(case), got["windows"]):
+            if gw != [row[c_:d_] for row in M[a:b_]]:
+                bad.append({"what": "sub-range matrix fetch", "cell": n, "window": [a, b_, c_, d_], "got": gw})
+        rows_of = {ch: [i for i, b0 in enumerate(case["bins"]) if b0[0] == ch] for ch in case["chromnames"]}
+        for ch in case["chromnames"]:
+            lo, hi = rows_of[ch][0], rows_of[ch][-1] + 1
+            if got["by_chrom"][ch] != [row[lo:hi] for row in M[lo:hi]]:
+                bad.append({"what": "per-chromosome matrix fetch", "cell": n, "chrom": ch, "got": got["by_chrom"][ch]})
+        c0, c1 = case["chromnames"][0], case["chromnames"][-1]
+        if got["trans"] != [row[rows_of[c1][0]:rows_of[c1][-1] + 1] for row in M[rows_of[c0][0]:rows_of[c0][-1] + 1]]:
+            bad.append({"what": "two-chromosome matrix fetch", "cell": n, "got": got["trans"]})
+        # the stored table and its indexes (the schema of a valid collection): rows strictly sorted by (bin1, bin2),
+        # bin1_offset[i] = number of rows with bin1 < i, chrom_offset[k] = number of bins of earlier chromosomes
+        e2 = ids["cells"].get(n) or {}
+        if e2:
+            keys = list(zip(e2["raw_bin1"], e2["raw_bin2"]))
+            if keys != sorted(set(keys)) or keys != [(p[0], p[1]) for p in cell["pixels"]]:
+                bad.append({"what": "stored pixel rows are not the given rows in sorted order", "cell": n, "got": keys[:10]})
+            exp_off = [sum(1 for p in cell["pixels"] if p[0] < i) for i in range(nb + 1)]
+            if e2["bin1_offset"] != exp_off:
+                bad.append({"what": "bin1_offset index", "cell": n, "got": e2["bin1_offset"], "expected": exp_off})
+            codes = [case["chromnames"].index(b0[0]) for b0 in case["bins"]]
+            exp_coff = [sum(1 for x in codes if x < k) for k in range(len(case["chromnames"]) + 1)]
+            if e2["chrom_offset"] != exp_coff:
+                bad.append({"what": "chrom_offset index", "cell": n, "got": e2["chrom_offset"], "expected": exp_coff})
         exp_bins = {"chrom": [b[0] for b in case["bins"]], "start": [b[1] for b in case["bins"]], "end": [b[2] for b in case["bins"]]}
         extra = cell["extra"] if case["mode"] == "dict" else shared
         for col, vals in (extra or {}).items():
@@ -468,6 +539,11 @@ def run(ctx):
     d = str(ctx.tmp / "scool")
     os.makedirs(d, exist_ok=True)
     cases = [(c, "corpus") for c in corpus()]
+    import copy
+    for ordered, chunks, as_dict in ((None, None, False), (False, None, False), (True, 2, False), (None, None, True)):
+        cs = copy.deepcopy(CORPUS_SORT)
+        cs["opts"].update({"ordered": ordered, "chunks": chunks, "as_dict": as_dict})
+        cases.append((cs, "corpus"))
     for _ in range(700 if thorough else 150):
         cases.append((gen_case(rng), "random"))
     results = []
